@@ -176,7 +176,9 @@ def _expand_element_group(element: SpecOp) -> List[ElementType]:
                 new_elements.append(
                     SpecOp(
                         op=element.op,
-                        spec=group_element,
+                        # (the same member can be part of several and-groups, and the
+                        # expansion of the statement writes to the spec)
+                        spec=copy.deepcopy(group_element),
                     )
                 )
             new_elements.append(goto_end_element)
